@@ -482,6 +482,21 @@ def render_signature(
     return "\n".join(rendered_multi_lines)
 
 
+def _strip_module_prefixes(s: str, modules: Iterable[str]) -> str:
+    """Drop the given module prefixes from the dotted names in s.
+
+    Only whole dotted prefixes count ("utils." must not eat the tail of
+    "pkg.utils." or of "myutils."), the longest one wins ("pkg.sub.C" with pkg
+    and pkg.sub imported is "C", not "sub.C"), and it is one pass over the text:
+    what is left of a name is not stripped again ("pkg.util.C" with pkg and
+    util imported is "util.C", not "C").
+    """
+    prefixes = sorted({module + "." for module in modules}, key=len, reverse=True)
+    if not prefixes:
+        return s
+    return re.sub(r"(?<![\w.])(?:" + "|".join(map(re.escape, prefixes)) + ")", "", s)
+
+
 class AttributeStub(Stub):
     def __init__(
         self,
@@ -495,9 +510,7 @@ class AttributeStub(Stub):
         s = render_annotation(self.typ)
         # The stub imports the names this annotation needs (see
         # build_module_stubs), so, like in FunctionStub, drop the module prefixes.
-        # longest prefix first: stripping "pkg." before "pkg.sub." would leave "sub.C"
-        for module in sorted(get_imports_for_annotation(self.typ), key=len, reverse=True):
-            s = re.sub(r"(?<![\w.])" + re.escape(module + "."), "", s)
+        s = _strip_module_prefixes(s, get_imports_for_annotation(self.typ))
         return f"{prefix}{self.name}: {s}"
 
     def __repr__(self) -> str:
@@ -527,11 +540,7 @@ class FunctionStub(Stub):
         s += render_signature(self.signature, 120 - len(s), prefix) + ": ..."
         # Yes, this is a horrible hack, but inspect.py gives us no way to
         # specify the function that should be used to format annotations.
-        # longest prefix first: stripping "pkg." before "pkg.sub." would leave "sub.C"
-        for module in sorted(self.strip_modules, key=len, reverse=True):
-            # strip whole dotted prefixes only: "utils." must not eat the tail of
-            # "pkg.utils." or of "myutils."
-            s = re.sub(r"(?<![\w.])" + re.escape(module + "."), "", s)
+        s = _strip_module_prefixes(s, self.strip_modules)
         if self.kind == FunctionKind.CLASS:
             s = prefix + "@classmethod\n" + s
         elif self.kind == FunctionKind.STATIC:
